@@ -110,7 +110,7 @@ func freshValue() any { return &ttlv.Value{} }
 func runC04(c *vlib.Check) {
 	c.Rule = "(1) the C01 message space (rich baselines + every single-site deviation, 27 operations x 2 directions x 5 versions) x {XML, JSON}, repeated in a fresh child process that first uses every message type at version 1.4; (2) one-item sweeps: every Unicode scalar value the format can carry as a " +
 		"one-character text string (quick: all < U+0800 plus class boundaries; thorough: all), every registered and three unregistered values of every enumeration, masks {0, every single bit, every pair of bits, all ones} " +
-		"for both mask types, long/big integers around 2^52/2^63/2^64, dates at years 1 and 9999; (3) every request/response of the 410 OASIS vector files whose operations are implemented, " +
+		"for both mask types, long/big integers around 2^52/2^63/2^64, dates at years 1 and 9999, six instants held in four time zones and written with their offset by another implementation; (3) every request/response of the 410 OASIS vector files whose operations are implemented, " +
 		"decoded and re-encoded in XML and compared element by element with the vector. distinct = distinct documents"
 	c.Assumptions = []string{"independent judges: Go encoding/xml (strict) and encoding/json with own value lexers (package reftext), names resolved through the pinned registry",
 		"vector comparison normalises lexical form only: hex case, big integers by value, masks as sets of flags, enumerations by number, dates as instants",
@@ -279,6 +279,34 @@ func c04Sweeps(c *vlib.Check) {
 	for _, s := range []int64{-62135596800, -62135596799, 0, 1, -1, 1 << 31, 253402300799} {
 		for _, e := range textEncs {
 			c04Value(c, e, "date", fmt.Sprintf("date %d", s), ttlv.Value{Tag: 0x420001, Value: time.Unix(s, 0)}, freshValue)
+		}
+	}
+	// the same instants held in other time zones (the text forms then carry an offset), and documents of another
+	// implementation that write an instant with an offset: the binary encoding only knows the instant
+	zones := []*time.Location{time.UTC, time.FixedZone("", 2*3600), time.FixedZone("", -(11*3600 + 1800)), time.FixedZone("", 14*3600)}
+	for _, s := range []int64{0, 1, -1, 1 << 31, 1700000000, 951782400} {
+		for zi, z := range zones {
+			t := time.Unix(s, 0).In(z)
+			for _, e := range textEncs {
+				c04Value(c, e, "date", fmt.Sprintf("date %d held in zone #%d (%s)", s, zi, t.Format(time.RFC3339)), ttlv.Value{Tag: 0x420001, Value: t}, freshValue)
+				want := refttlv.Generate(&refttlv.Node{Tag: 0x420001, Type: refttlv.TDateTime, I: s})
+				doc := []byte(`<ActivationDate type="DateTime" value="` + t.Format(time.RFC3339) + `"/>`)
+				if e.name == "json" {
+					doc = []byte(`{"tag":"ActivationDate","type":"DateTime","value":"` + t.Format(time.RFC3339) + `"}`)
+				}
+				c.Eval(append([]byte(e.name+"foreign"), doc...), true)
+				var v ttlv.Value
+				var derr error
+				var got []byte
+				if pv, site := vlib.Catch(func() {
+					if derr = e.unmarshal(append([]byte{}, doc...), &v); derr == nil {
+						got = ttlv.MarshalTTLV(v)
+					}
+				}); pv != nil || derr != nil || !bytes.Equal(got, want) {
+					c.Violation("date:"+e.name+":foreign-offset-document", fmt.Sprintf("the %s document %s (instant %d) read by the library and written as binary gives %x, expected %x (err %v, panic %v %s)", e.name, doc, s, got, want, derr, pv, site),
+						map[string]any{"kind": "document", "encoding": e.name, "document": string(doc)})
+				}
+			}
 		}
 	}
 	for _, s := range []int64{0, 1, 1 << 31, 1<<32 - 1} {
